@@ -54,7 +54,9 @@ func gen(r *hlib.Rand, n int, tier, profile string, emit func(string, ...any)) {
 			emit("enc %d %d %d %d %d", v, t, r.Intn(256), uint32(boundary64(r)), boundary64(r))
 		case 1:
 			ln := hlib.Pick(r, 0, 1, 15, 16, 16, 16, 17, 32, r.Intn(64))
-			emit("parse %s", hlib.Hex(r.Bytes(ln)))
+			// `parse`: the bytes are a prefix of a larger receive buffer that still holds stale data
+			// (how nebula's UDP readers hand packets over); `parsex`: exactly-sized allocation
+			emit("%s %s", hlib.Pick(r, "parse", "parse", "parsex"), hlib.Hex(r.Bytes(ln)))
 		case 2:
 			emit("valid %d %d", r.Intn(256), r.Intn(256))
 		}
@@ -69,14 +71,24 @@ func newExec(t *testing.T) func([]string) string {
 			out := header.Encode(b, uint8(hlib.Atoi(a[1])), header.MessageType(hlib.Atoi(a[2])),
 				header.MessageSubType(hlib.Atoi(a[3])), uint32(hlib.Atou(a[4])), hlib.Atou(a[5]))
 			return hlib.Hex(out)
-		case "parse":
+		case "parse", "parsex":
 			b, err := hlib.UnHex(a[1])
 			if err != nil {
 				return "bad-op"
 			}
-			// guard page style check: parsing must not look beyond 16 bytes, so give it a slice whose
-			// capacity ends where its length ends
-			b = b[:len(b):len(b)]
+			if a[0] == "parsex" {
+				// parsing must not look beyond the slice: capacity ends where the length ends
+				b = b[:len(b):len(b)]
+			} else {
+				// a short datagram inside a reused, larger receive buffer full of stale bytes: the
+				// stale bytes must never be interpreted as header fields
+				buf := make([]byte, len(b)+64)
+				for i := range buf {
+					buf[i] = 0xa5
+				}
+				copy(buf, b)
+				b = buf[:len(b)]
+			}
 			var h header.H
 			if err := h.Parse(b); err != nil {
 				return "err"
